@@ -110,6 +110,9 @@ func (db *DB) Merge() error {
 			pos := db.index.Get(logRecord.Key)
 			if pos != nil && pos.Fid == dataFile.ID &&
 				pos.Offset == logRecordPos.Offset && pos.BlockID == logRecordPos.BlockID {
+				// 重写后的记录不再属于任何批处理, 需清除批次 ID
+				// 否则重启加载时会因找不到对应的完成标识记录而被丢弃
+				logRecord.BatchID = 0
 				// 将数据重写到 merge 临时目录中
 				pos, err := mergeDB.appendLogRecord(logRecord)
 				if err != nil {
